@@ -14,7 +14,9 @@ use crate::node::{copy_snap, Node, NodeOpts};
 use crate::report::{Part, Tier};
 use crate::util::{guarded, hash128, Tally};
 
-pub const G_MS: u64 = 1000;
+/// Grace period of the kv engine: deliberately not a whole number of seconds (a GC predicate that
+/// truncates ages to seconds — seeded change C06-r5 — is invisible with 1000 ms).
+pub const G_MS: u64 = 1500;
 
 #[derive(Clone, Copy, Debug, PartialEq, Eq, Hash, PartialOrd, Ord)]
 pub enum Op {
